@@ -88,7 +88,7 @@ def cases(tier, seed):
         for rep in range(nrand):
             out.append({"kind": "random", "cls": "random:" + cls, "entry": cls, "maxd": maxd, "idx": idx, "seed": seed})
             idx += 1
-    for rep in range(6 if tier == "quick" else 40):
+    for rep in range(24 if tier == "quick" else 120):
         out.append({"kind": "laws", "cls": "laws", "idx": rep, "maxd": 6 if tier == "quick" else 12, "seed": seed})
     for rep in range(4 if tier == "quick" else 16):
         out.append({"kind": "layouts", "cls": "layouts", "idx": rep, "seed": seed})
@@ -260,9 +260,15 @@ def _laws(spec, ctx, R):
     rng = gen.rng_for(spec["seed"], "c01laws", spec["idx"])
     maxd = spec["maxd"]
     m, kk, n = (int(x) for x in rng.integers(1, maxd + 1, size=3))
-    cls = str(rng.choice(["gauss", "int", "pure_imag", "sparse", "mixed_mag", "single_axis"]))
-    A = gen.entries(rng, cls, m, kk)
-    B = gen.entries(rng, cls, kk, n)
+    LAW_CLASSES = ["gauss", "int", "pure_imag", "sparse", "mixed_mag", "single_axis", "nonpos", "nonneg", "nonpos_sparse", "neg_identity",
+                   "unit_identity", "one_nonzero"]
+    cls = LAW_CLASSES[spec["idx"] % len(LAW_CLASSES)]
+    if cls in gen.STRUCT_CLASSES:
+        A = gen.structured(rng, cls, m, kk)
+        B = gen.structured(rng, cls, kk, n)
+    else:
+        A = gen.entries(rng, cls, m, kk)
+        B = gen.entries(rng, cls, kk, n)
     ctx.distinct("laws", A, B)
     SA, SB = R.sparse_from_dense(A), R.sparse_from_dense(B)
     # conjugate transpose: equals the oracle's, and is an involution, dense and sparse (T1)
